@@ -38,6 +38,7 @@ MUTANTS = {
                               ('if constexpr (HFL == BCD || HFL == CDA || HFL == ADB) {return D;}', 'if constexpr (HFL == BDC || HFL == DCA || HFL == ACB) {return C;}',
                                'if constexpr (HFL == BCD || HFL == DAC || HFL == ABC) {return C;}', 'if constexpr (HFL == BDC || HFL == CAD || HFL == ABD) {return D;}'),
                               'labels'),
+    'tet-add-cell-vertex-count-fix-reverted': ('C15', TK, 'if(vhs.size() != 4) {', 'if(false) {', 'additions-dangling'),
     'tet-label-getlabel-halfedge': ('C15', TTC, 'return opposite(hel);', 'return hel;', 'labels'),
     'tet-label-constructor-cd': ('C15', TTC, 'hfh<ACD>() = cur_hfh;\n                heh_[CD] = *heh_it;', 'hfh<ACD>() = cur_hfh;\n                heh_[CD] = heh;', 'labels'),
     'tet-triangle-start': ('C15', TRC, 'if (idx == 0 && _mesh.from_vertex_handle(heh) != _a) {', 'if (idx == 0 && _mesh.to_vertex_handle(heh) != _a) {', 'labels'),
